@@ -82,4 +82,34 @@ fn cam_projection_uses_viewport_aspect() {
     assert!(oc.project.0[0][0] == ow.0[0][0] && oc.project.0[1][3] == ow.0[1][3] && oc.project.0[2][2] == ow.0[2][2] && oc.dims == (w, h));
 }
 
+// @ob props=C08 tier=quick kind=P cfg=core-std timeout=900
+// @fn Camera::mode ; Camera::viewport ; <Mat4x4<WorldToView> as Mode>::world_to_view
+// @clause composing a camera: attaching a movement mode changes nothing else -- for every frame up to 4096^2 and every non-inverted viewport request starting inside the frame, .mode(m) keeps dims, the projection matrix and the NDC->screen matrix of the (possibly offset) viewport bit for bit, and a matrix mode returns itself as the world-to-view transform
+#[cfg(not(verif_skip_cam_mode_keeps_camera))]
+#[kani::proof]
+#[kani::unwind(6)]
+fn cam_mode_keeps_camera() {
+    let (w, h): (u32, u32) = (kani::any(), kani::any());
+    kani::assume(w <= 4096 && h <= 4096);
+    let (l, t, r, b): (u32, u32, u32, u32) = (kani::any(), kani::any(), kani::any(), kani::any());
+    kani::assume(l <= r && t <= b && l <= w && t <= h && r <= 8192 && b <= 8192);
+    let c2 = Camera::new((w, h)).viewport((l..r, t..b)).orthographic(crate::math::pt3(-1.0, -2.0, 1.0)..crate::math::pt3(3.0, 2.0, 9.0));
+    let els: [[F; 4]; 4] = kani::any();
+    let m: Mat4x4<WorldToView> = Mat4x4::new(els);
+    let c3 = c2.mode(m);
+    kani::cover!(l > 0 && t > 0 && r < w);
+    assert!(c3.dims == c2.dims && same_matrix(&c3.viewport, &c2.viewport));
+    let wv = c3.mode.world_to_view();
+    let mut i = 0;
+    while i < 4 {
+        let mut j = 0;
+        while j < 4 {
+            assert!(c3.project.0[i][j].to_bits() == c2.project.0[i][j].to_bits());
+            assert!(wv.0[i][j].to_bits() == els[i][j].to_bits());
+            j += 1;
+        }
+        i += 1;
+    }
+}
+
 include!("gen/dispatch_cam.rs");
